@@ -44,17 +44,18 @@ NeededSet(dd, S, I) == NeededFor(dd, KwMark(I), S)
 (* The root arguments of the cut: names a needed function reads from outside the cut (parameter not bound, and either   *)
 (* provided or not produced by any function).                                                                         *)
 CutRoots(dd, S, I) ==
-    {p \in AllParams(dd) : \E i \in NeededSet(dd, S, I) :
-        p \in ParamsOf(dd, i) /\ ~IsBound(dd, i, p) /\ (p \in I \/ p \notin AllOutputs(dd))}
+    LET N == NeededSet(dd, S, I)  outs == AllOutputs(dd) IN
+    {p \in AllParams(dd) : \E i \in N : p \in ParamsOf(dd, i) /\ ~IsBound(dd, i, p) /\ (p \in I \/ p \notin outs)}
 MissingNames(dd, S, I) == {p \in CutRoots(dd, S, I) : p \notin I /\ ~HasDefault(dd, p)}
 Computable(dd, S, I)   == MissingNames(dd, S, I) = {}
 
 (* provided names that no needed function reads (a bound parameter does not read) *)
 ConsultedNames(dd, S, I) ==
-    {p \in I : \E i \in NeededSet(dd, S, I) : p \in ParamsOf(dd, i) /\ Source(dd, KwMark(I), i, p) = "kw"}
+    LET N == NeededSet(dd, S, I)  kw == KwMark(I) IN
+    {p \in I : \E i \in N : p \in ParamsOf(dd, i) /\ Source(dd, kw, i, p) = "kw"}
 SurplusNames(dd, S, I) == I \ ConsultedNames(dd, S, I)
 (* a provided name whose producer has to run nevertheless (for a sibling output of a tuple-output function) *)
-ShadowedSibling(dd, S, I) == \E n \in I \cap AllOutputs(dd) : FuncOf(dd, n) \in NeededSet(dd, S, I)
+ShadowedSibling(dd, S, I) == LET N == NeededSet(dd, S, I) IN \E n \in I \cap AllOutputs(dd) : FuncOf(dd, n) \in N
 
 (***************************************************************************)
 (* DON'T-CARE set.  The property text says "every I from which S is        *)
@@ -72,7 +73,7 @@ MustReject(dd, S, I) == WellFormedRequest(dd, S, I) /\ ~Computable(dd, S, I)
 
 ---------------------------------------------------------------------------
 (* Laws (checked per case by MC_SubPipeline).                                                                        *)
-DepClosed(dd, I, X)  == \A i \in X : DirectDeps(dd, KwMark(I), i) \subseteq X
+DepClosed(dd, I, X)  == LET kw == KwMark(I) IN \A i \in X : DirectDeps(dd, kw, i) \subseteq X
 Producers(dd, S, I)  == {FuncOf(dd, o) : o \in S \ I}
 (* NeededSet is the LEAST set that contains the producers of S and is closed under dependencies *)
 LawLeast(dd, S, I) ==
@@ -81,16 +82,18 @@ LawLeast(dd, S, I) ==
     /\ \A X \in SUBSET FIdx(dd) : (Producers(dd, S, I) \subseteq X /\ DepClosed(dd, I, X)) => N \subseteq X
 (* the producer of a provided name is cut off unless a sibling output of it is requested or read by a needed function *)
 LawCutOff(dd, S, I) ==
-    \A n \in I \cap AllOutputs(dd) : FuncOf(dd, n) \in NeededSet(dd, S, I) =>
+    LET N == NeededSet(dd, S, I)  kw == KwMark(I) IN
+    \A n \in I \cap AllOutputs(dd) : FuncOf(dd, n) \in N =>
         \/ OutputsOf(dd, FuncOf(dd, n)) \cap S # {}                 \* a sibling output is requested itself
-        \/ \E i \in NeededSet(dd, S, I) : \E p \in ParamsOf(dd, i) :   \* or read by a needed function
-              p \in OutputsOf(dd, FuncOf(dd, n)) /\ Source(dd, KwMark(I), i, p) = "up"
+        \/ \E i \in N : \E p \in ParamsOf(dd, i) :                     \* or read by a needed function
+              p \in OutputsOf(dd, FuncOf(dd, n)) /\ Source(dd, kw, i, p) = "up"
 (* Computable <=> the argument-resolution of every needed function finds a source <=> the call denotation of every    *)
 (* requested output is defined                                                                                        *)
 LawComputableSources(dd, S, I) ==
-    Computable(dd, S, I) <=> \A i \in NeededSet(dd, S, I) : \A p \in ParamsOf(dd, i) : Source(dd, KwMark(I), i, p) # "missing"
+    LET N == NeededSet(dd, S, I)  kw == KwMark(I) IN
+    Computable(dd, S, I) <=> \A i \in N : \A p \in ParamsOf(dd, i) : Source(dd, kw, i, p) # "missing"
 LawComputableDefined(dd, S, I) ==
-    Computable(dd, S, I) <=> \A o \in S : Defined(dd, KwMark(I), o)
+    LET kw == KwMark(I) IN Computable(dd, S, I) <=> \A o \in S : Defined(dd, kw, o)
 
 ---------------------------------------------------------------------------
 (* The map request behind a sub-pipeline run.  MapDenote!ValidMapRequestF forbids inputs that are outputs (C01 runs   *)
@@ -124,12 +127,15 @@ SubReject(S, named) ==
     /\ MustReject(d, S, I) => NamesMissing(d, S, I, named)
     /\ UNCHANGED mvars
 
-(* "values of the full pipeline with I substituted": whenever the whole pipeline can be run on inputs that extend the *)
-(* provided ones, every requested output has the same value in both runs.                                             *)
+(* "values of the full pipeline with I substituted": whenever the WHOLE pipeline can be run on inputs that extend the   *)
+(* provided ones by values for root arguments without a default, every requested output has the same value in both    *)
+(* runs (in the full run the provided intermediates shadow their producers as well).                                   *)
 LawSubstitution(dd, S, inputs, fullInputs) ==
     LET I == PKeys(inputs) IN
     (/\ Computable(dd, S, I) /\ ~ShadowedSibling(dd, S, I)
      /\ \A n \in I : PHas(fullInputs, n) /\ PGet(fullInputs, n) = PGet(inputs, n)
+     /\ \A n \in PKeys(fullInputs) \ I : n \in RootNames(dd) /\ ~HasDefault(dd, n)
      /\ ValidUpTo(dd, fullInputs, FIdx(dd), MaxGen(dd)))
-    => \A o \in S : MapDenoteF(dd, inputs, NeededSet(dd, S, I))[o] = MapDenoteF(dd, fullInputs, FIdx(dd))[o]
+    => LET sub == MapDenoteF(dd, inputs, NeededSet(dd, S, I))  full == MapDenoteF(dd, fullInputs, FIdx(dd))
+       IN  \A o \in S : sub[o] = full[o]
 =============================================================================
